@@ -465,6 +465,38 @@ def run(ctx):
     for lang, name, b, w in plan:
         i += 1
         jobs.append((os.path.join(basedir, "w%d" % i), ydict, w, lang, name, b, base_blocks))
+    # a second description with nested namespaces (a namespace holding a namespace and a class, a leaf namespace)
+    ydict2 = yaml.safe_load(libs.NESTED_CXX)
+    out2, r2 = gen(os.path.join(basedir, "base2"), ydict2, {}, [])
+    if r2.status != "ok":
+        raise RuntimeError("baseline generation of the nested description failed: %s" % r2.msg)
+    base_blocks2 = tree_blocks(out2)
+    names2 = sorted(set((k[0], k[3]) for k in base_blocks2))
+    for lang, name in names2:
+        for w in (ways if not quick else ways[:2]):
+            i += 1
+            jobs.append((os.path.join(basedir, "w%d" % i), ydict2, w, lang, name, "one" if (i % 3) else "braces", base_blocks2))
+    ctx.part("emitter", nested_description_names=len(names2))
+    # the names themselves: one block name lives in one place, and a Fortran module file only holds
+    # blocks of its own scope (input.rst lists the names per module)
+    for bb in (base_blocks, base_blocks2):
+        where = {}
+        for (lang, fn, idx, name) in bb:
+            where.setdefault((lang, name), []).append(fn)
+        for (lang, name), fns in sorted(where.items()):
+            if len(fns) > 1:
+                ctx.violation("roundtrip duplicate-block-name lang=%s name=%s" % (lang, name),
+                              "splicer name %s is emitted %d times (%s): user code for it cannot be told apart" % (name, len(fns), sorted(set(fns))),
+                              {"kind": "names", "name": name})
+        scopes = {}
+        for (lang, fn, idx, name) in bb:
+            if lang == "f":
+                m = re.match(r"namespace\.([^.]+)\.", name)
+                scopes.setdefault(fn, set()).add(m.group(1) if m else "")
+        for fn, sc in sorted(scopes.items()):
+            if len(sc) > 1:
+                ctx.violation("emitter scope-mix %s" % fn, "Fortran file %s holds splicer blocks of different scopes: %s" % (fn, sorted(sc)),
+                              {"kind": "names", "file": fn})
     ctx.rng.shuffle(jobs)
     res = isolate.pmap(emit_case, jobs, W)
     djobs = []
